@@ -212,13 +212,14 @@ type fakeAPI struct {
 	mkList func(rv string, items []kobj) runtime.Object
 
 	// list behaviour
-	gated       bool
-	gatech      chan *listReq
-	listFaults  map[int]listFault
-	listLatency func(k int) time.Duration
-	nlists      int
-	inflight    int
-	listCalls   []*listCall
+	gated            bool
+	gatech           chan *listReq
+	listFaults       map[int]listFault
+	listLatency      func(k int) time.Duration
+	beforeListReturn func(k int) // called (without the lock) just before a successful List returns
+	nlists           int
+	inflight         int
+	listCalls        []*listCall
 
 	// watch behaviour
 	watchDead  bool
@@ -227,7 +228,7 @@ type fakeAPI struct {
 	wcallch    chan int
 	releasech  chan struct{}
 	watchCalls []*watchCall
-	dropNext   int // drop the next n non-marker events on live sessions (lost by the watch)
+	dropNext   int           // drop the next n non-marker events on live sessions (lost by the watch)
 	onWatch    func(idx int) // called (without the lock) when a Watch call arrives
 }
 
@@ -346,6 +347,9 @@ func (a *fakeAPI) List(ctx context.Context, _ metav1.ListOptions) (runtime.Objec
 	if fault != lfNone {
 		finish(0, fault, false)
 		return faultResult(fault)
+	}
+	if hook := a.beforeListReturn; hook != nil {
+		hook(k)
 	}
 	finish(snap.rv, lfNone, false)
 	return a.render(snap), nil
